@@ -444,15 +444,140 @@ fn check_inner(case: &Case, st: &mut Stats) -> Result<(), String> {
     })
 }
 
+// ---------------------------------------------------------------------------------------------
+// real threads: programs whose outcome is the same under EVERY interleaving
+
+/// One task fails of its own accord (`Err(1)`); every other task only reacts to the cancellation that this
+/// failure causes (async waiters on `ctx.canceled()`, blocking tasks spinning on `ctx.is_active()`), some of them
+/// by failing too (`Err(2)`, `Err(3)`). Whatever the OS schedule, no task can fail strictly before the first one,
+/// so the scope must return `Err(1)`.
+#[derive(Debug, Clone, Serialize, Deserialize, Hash)]
+pub struct ThreadsCase {
+    /// 0: the root task fails (it is the only main task); 1: the root returns Ok after spawning a main task which fails a little later;
+    /// 2: as 1, but the failing main task is a blocking task.
+    shape: u8,
+    /// Async background tasks waiting for cancellation; `waiters_fail` of them then return Err(3).
+    waiters: u32,
+    waiters_fail: u32,
+    /// Blocking background tasks spinning on `is_active()`, then returning Err(2).
+    spinners: u8,
+    /// Worker threads of the runtime.
+    workers: u8,
+    /// Yields of the failing task before it fails.
+    delay_yields: u16,
+    reps: u16,
+}
+
+pub fn gen_threads(ch: &mut Choices) -> ThreadsCase {
+    let waiters = ch.pick(&[0u32, 1, 10, 300, 3000, 20000]);
+    ThreadsCase {
+        shape: ch.below(3) as u8,
+        waiters,
+        waiters_fail: if waiters > 0 { ch.below(1 + waiters.min(50) as usize) as u32 } else { 0 },
+        spinners: 1 + ch.below(3) as u8,
+        workers: ch.pick(&[2u8, 4, 8]),
+        delay_yields: ch.pick(&[0u16, 1, 10, 100]),
+        reps: 12,
+    }
+}
+
+pub fn check_threads(case: &ThreadsCase, st: &mut Stats) -> Result<(), String> {
+    use std::sync::atomic::{AtomicU32, Ordering};
+    use zksync_concurrency::{ctx, scope};
+    let rt = tokio::runtime::Builder::new_multi_thread().worker_threads(case.workers.clamp(1, 16) as usize).enable_all().build().map_err(|e| format!("INFRA: runtime: {e}"))?;
+    let mut verdict = Ok(());
+    for rep in 0..case.reps.max(1) {
+        let res: Result<u32, u32> = rt.block_on(async {
+            let ctx = &ctx::root();
+            let waiting = &AtomicU32::new(0);
+            let n = case.waiters;
+            scope::run!(ctx, |ctx, s| async move {
+                for k in 0..n {
+                    let fail = k < case.waiters_fail;
+                    s.spawn_bg(async move {
+                        waiting.fetch_add(1, Ordering::SeqCst);
+                        ctx.canceled().await;
+                        if fail {
+                            Err(3)
+                        } else {
+                            Ok(())
+                        }
+                    });
+                }
+                for _ in 0..case.spinners {
+                    s.spawn_bg_blocking(move || {
+                        while ctx.is_active() {
+                            std::hint::spin_loop();
+                        }
+                        Result::<(), u32>::Err(2)
+                    });
+                }
+                // the failing task: waits until every waiter is registered, idles a little, fails
+                let fail_later = async move {
+                    while waiting.load(Ordering::SeqCst) < n {
+                        tokio::task::yield_now().await;
+                    }
+                    for _ in 0..case.delay_yields {
+                        tokio::task::yield_now().await;
+                    }
+                    Result::<u32, u32>::Err(1)
+                };
+                match case.shape % 3 {
+                    0 => fail_later.await,
+                    1 => {
+                        s.spawn(async move { fail_later.await.map(|_| ()) });
+                        Ok(7)
+                    }
+                    _ => {
+                        s.spawn_blocking(move || {
+                            while waiting.load(Ordering::SeqCst) < n {
+                                std::thread::yield_now();
+                            }
+                            for _ in 0..case.delay_yields {
+                                std::thread::yield_now();
+                            }
+                            Result::<(), u32>::Err(1)
+                        });
+                        Ok(7)
+                    }
+                }
+            })
+            .await
+        });
+        if res != Err(1) {
+            verdict = Err(format!(
+                "repetition {rep}: the scope returned {res:?}; the only task that fails before the scope is cancelled returns Err(1), the others fail only after observing the cancellation it causes"
+            ));
+            break;
+        }
+    }
+    rt.shutdown_timeout(std::time::Duration::from_secs(5));
+    if case.waiters >= 300 {
+        st.class("many_cancellation_waiters");
+        st.nontrivial(common::fingerprint(case));
+    }
+    st.class(match case.shape % 3 {
+        0 => "root_fails_first",
+        1 => "last_main_task_fails_first",
+        _ => "last_blocking_main_task_fails_first",
+    });
+    st.sample(|| serde_json::to_value(case).unwrap());
+    verdict
+}
+
 pub fn main(env: &Env) -> i32 {
     env.arm_emergency();
     common::crashdump::arm(&env.property);
     if let Mode::Replay(path) = env.mode() {
-        let (_, case) = Env::read_replay(&path);
+        let (part, case) = Env::read_replay(&path);
+        if part == "threads" {
+            return env.finish_replay(&path, common::replay_case::<ThreadsCase>(case, check_threads));
+        }
         return env.finish_replay(&path, common::replay_case::<Case>(case, check));
     }
     let mut parts: Vec<PartReport> = vec![];
     parts.extend(common::run_regress::<Case>(env, "scopes", check));
+    parts.extend(common::run_regress::<ThreadsCase>(env, "threads", check_threads));
     parts.push(run_proptest(
         env,
         "scopes",
@@ -463,9 +588,23 @@ pub fn main(env: &Env) -> i32 {
         || Choices::strategy(150).prop_map(|mut ch| gen_case(&mut ch)),
         check,
     ));
+    {
+        // real threads: two shards only, so that the worker threads of a case really run in parallel
+        let mut seq = env.clone_for_part();
+        seq.shards = 2;
+        parts.push(run_proptest(
+            &seq,
+            "threads",
+            "the real scope on a multi-thread tokio runtime (2-8 workers) with blocking tasks: one task (the root, the last main task, or a blocking last main task) fails with Err(1) after 0-100 yields; 0-20000 async background tasks wait on ctx.canceled() (some then fail with Err(3)) and 1-3 blocking background tasks spin on ctx.is_active() and then fail with Err(2); 12 repetitions per case; \
+             oracle valid under every OS schedule: nothing can fail before the scope is cancelled except the first task, so the scope must return Err(1). Non-trivial = at least 300 cancellation waiters (cancelling takes long enough for the other threads to react while the first failure is still being recorded)",
+            PartOpts { cases: env.tier.pick(120, 3_000), max_shrink_iters: 40, samples: 2 },
+            || Choices::strategy(20).prop_map(|mut ch| gen_threads(&mut ch)),
+            check_threads,
+        ));
+    }
     env.finish(
         "exploration",
-        "generated programs with generator-owned schedules on a deterministic runtime; blocking tasks and OS-thread interleavings are outside this part",
+        "generated programs with generator-owned schedules on a deterministic runtime, plus a thread-parallel part whose oracle holds under every OS schedule (schedules there are sampled by the OS, not enumerated)",
         &["on the single-threaded runtime 'body returns Err' and 'error recorded + scope cancelled' happen within one poll, so the reported error must be exactly the first failure in log order"],
         parts,
     )
